@@ -5,6 +5,8 @@ go 1.23
 require golang.org/x/tools v0.29.0
 
 require (
+	github.com/cossacklabs/pg_query_go/v5 v5.1.0
 	golang.org/x/mod v0.22.0 // indirect
 	golang.org/x/sync v0.10.0 // indirect
+	google.golang.org/protobuf v1.33.0
 )
